@@ -6,6 +6,7 @@
    [grow] / [mgrow] are the runtime-chosen reallocation policies of slices.Grow / append,
    [pick] inside scripts is sync.Pool's choice: every theorem holds for all of them. *)
 From GV Require Import Lib.Tactics EVM.StackArena EVM.MemoryPool EVM.PoolingProofs.
+From GV Require EVM.Jumpdest EVM.JumpdestCalls EVM.JumpdestCallsProofs.
 
 (* the shared arena is observationally one private stack per frame: for ALL scripts of frame
    enter/exit and interpreter-checked stack operations, whatever earlier executions left in
@@ -111,6 +112,38 @@ Theorem C28_precompile_cache_transparent :
 Proof. exact precompile_cache_transparent. Qed.
 Print Assumptions C28_precompile_cache_transparent.
 
+(* the hypothesis [contract_ok] above is the pairing obligation of C30; the call paths of evm.go
+   as modelled in EVM/JumpdestCalls.v (resolveCode / resolveCodeHash, also through an EIP-7702
+   designator; zero hash for initcode) discharge it whenever the state stores with every code the
+   hash of that code — imported from C30 (call_frame_paired), not re-proved *)
+Theorem C28_call_paths_discharge_pairing :
+  forall (bitvec : Type) (H : list N -> Jumpdest.hash) (S : list N -> Prop) (analyse : list N -> bitvec)
+         kind st prague addr fr,
+    JumpdestCallsProofs.state_ok H S st -> JumpdestCalls.call_frame kind st prague addr = Some fr ->
+    contract_ok (list N) Jumpdest.hash bitvec H analyse S (contract_of_frame bitvec fr) /\
+    c_code _ _ _ (contract_of_frame bitvec fr) = JumpdestCalls.executed_code st prague addr.
+Proof. exact call_paths_contract_ok. Qed.
+Print Assumptions C28_call_paths_discharge_pairing.
+
+(* the depth needs of EIP-8024 are exactly what isolation requires (they are part of [astep]:
+   DUPN n needs n, SWAPN n needs n+1, EXCHANGE n m needs max(n,m)+1, and the theorems above hold
+   for them): with SWAPN checked against n instead of n+1, a child frame holding exactly 17 items
+   reads its caller's top item through back(17) and overwrites it *)
+Theorem C28_weak_swapn_check_breaks_isolation :
+  let g := fun _ : nat => 1024%nat in
+  let script := [OEnter; OPush 7%N; OPush 8%N; OEnter] ++ repeat (OPush 1%N) 17 in
+  let '(a, fs) := afinal g (mkArena (repeat 0%N 1025) 0%Z, []) script in
+  match fs with
+  | child :: parent :: _ =>
+      s_size child = 17%Z /\ decode_single 128 = 17%Z /\
+      snd (astep g (a, fs) (OSwapN 128)) = BErr 1%Z /\            (* the real check: underflow *)
+      stk_back a child 17 = Some 8%N /\                            (* unchecked: the caller's top *)
+      option_map (fun a' => stk_data a' parent) (stk_set_back a child 17 1%N) = Some (Some [7%N; 1%N])
+  | _ => False
+  end.
+Proof. vm_compute. repeat split. Qed.
+Print Assumptions C28_weak_swapn_check_breaks_isolation.
+
 (* non-vacuity: a dirty arena and a two-frame script in which the child overwrites, pops and
    dups while the parent's operands survive; the interpreter's guard matters (an UNCHECKED pop
    in an empty child frame reads the parent's operand); a pooled memory reused after Free *)
@@ -123,6 +156,10 @@ Example C28_nonvacuous :
   nth 9%nat (prun [] script) BUnit = BErr 1%Z /\
   nth 10%nat (prun [] script) BUnit = BWords [5%N; 6%N] /\
   nth 12%nat (prun [] script) BUnit = BWord2 6%N 5%N /\
+  (let script2 := [OEnter; OPush 99%N; OEnter] ++ repeat (OPush 1%N) 17 ++
+                  [OSwapN 128; ODupN 128; OSwapN 128; OExchange 142; OLen; OData 1%nat] in
+   arun g (mkArena dirty 0%Z, []) script2 = prun [] script2 /\
+   skipn 20 (prun [] script2) = [BErr 1%Z; BUnit; BUnit; BUnit; BInt 18%Z; BWords [99%N]]) /\
   (let '(a, s) := arena_stack g (mkArena [5%N; 6%N] 2%Z) in
    option_map (fun r => snd r) (stk_pop a s) = Some 6%N) /\
   mrun (fun _ n => n) (mem_new, [])
